@@ -264,7 +264,18 @@ impl<T: ?Sized> RwLock<T> {
             typ,
             self,
         );
+        // A task that already holds the read lock is refused (see below), and a refused attempt
+        // must leave the lock unchanged. So decide this before taking a permit from the semaphore,
+        // which could not be handed back without another scheduling point.
+        let already_reading =
+            typ == RwLockType::Read && matches!(&state.holder, RwLockHolder::Read(readers) if readers.contains(me));
         drop(state);
+        if already_reading {
+            // Same scheduling point as `try_acquire` below.
+            thread::switch();
+            trace!("failed to acquire {:?} lock on rwlock {:p}", typ, self);
+            return false;
+        }
 
         // Semaphore is never closed, so an error here is always `NoPermits`.
         let mut acquired = self.semaphore.try_acquire(typ.num_permits()).is_ok();
